@@ -40,12 +40,15 @@ def _digests(mname, seed, indices, twice):
         mod.warmup()
     one = (lambda i: runner.execute_run_isolated(mod, seed, i, "quick")) if isolate else (lambda i: runner.execute_run(mod, seed, i, "quick"))
     for i in indices:
+        # (a run cut by the CPU guard or the hard CPU limit is cut at a load-dependent instant: like in the checks'
+        # own mini self-test its digest is not compared, only its status)
+        key = lambda r_: ("-" if r_["status"] == "inconclusive" else r_["digest"], r_["status"])  # noqa: E731
         r = one(i)
-        d = (r["digest"], r["status"])
+        d = key(r)
         if twice:
             r2 = one(i)
-            if (r2["digest"], r2["status"]) != d:
-                d = (d, (r2["digest"], r2["status"]), "DIFFERS-IN-PROCESS")
+            if key(r2) != d:
+                d = (d, key(r2), "DIFFERS-IN-PROCESS")
         out[i] = d
     return out
 
